@@ -23,7 +23,16 @@
 (* Deliberate deviations: release() is one step (the code counts inFlight  *)
 (* down after parking the slab: the barrier may read high, never low);     *)
 (* serveInline's transition + inFlight.Add is one step; the idle cache is  *)
-(* one LIFO shard; wildcard/pktinfo and MSG_TRUNC drops are PReadDrop.     *)
+(* one LIFO shard; wildcard/pktinfo drops and read errors are PReadDrop.    *)
+(* A datagram larger than the slab's RX buffer is the packet kind "trunc":  *)
+(* the kernel fills the armed slab and flags MSG_TRUNC; both readers drop   *)
+(* it and give the slab back (portable: PReadTrunc; batch: the first branch *)
+(* of finishRecv = BFinish on a trunc packet).  TruncRelease = FALSE is the *)
+(* batch reader that returns without release: the slot is consumed, the     *)
+(* slab is nobody's, its lease is never counted down (NoHeldSlabs).         *)
+(* The packet kind "failhit" is answered by the failure cache's byte rung:  *)
+(* the reply is composed in place in the leased TX buffer (UdpSlab          *)
+(* OpStageInPlace, ClearHdr): ReplyHeaderIsOwn.                             *)
 (***************************************************************************)
 EXTENDS Naturals, Sequences, FiniteSets, TLC, UdpSlab
 
@@ -41,13 +50,14 @@ CONSTANTS
   BatchTX,       \* txConns armed: flushTX addresses by rawSA when present
   Drops,         \* the portable reader may drop a datagram after reading it
   BothOnHandoff, \* mutant: staged inline reply is added to the burst AND handed off
-  Opts           \* EDNS shapes of the packets that run the chain: subset of {"none", "plain", "cookie"}
+  Opts,          \* EDNS shapes of the packets that run the chain: subset of {"none", "plain", "cookie"}
+  TruncRelease   \* udpBatchReader.finishRecv releases the slab of a kernel-truncated datagram (FALSE = mutant)
 
 AllKinds == {"hit", "miss", "malformed", "qr", "badOpcode", "badCounts",
-             "panic", "ignoredByChain", "writeHandoff"}
+             "panic", "ignoredByChain", "writeHandoff", "trunc", "failhit"}
 
 OptKinds == {"none", "plain", "cookie"}
-ChainKinds == {"hit", "miss", "panic", "ignoredByChain", "writeHandoff"}   \* reach the edns handler
+ChainKinds == {"hit", "miss", "panic", "ignoredByChain", "writeHandoff", "failhit"}   \* reach the edns handler
 
 ASSUME Kinds \subseteq AllKinds /\ TXMax >= B /\ Cap <= NSlab /\ Opts \subseteq OptKinds
 
@@ -76,7 +86,8 @@ O(w, h, p) == [wrote |-> w, handoff |-> h, panic |-> p, set |-> TRUE]
 Allowed(kind, pass) ==
   CASE kind \in {"malformed", "qr"}          -> {O(FALSE, FALSE, FALSE)}
     [] kind \in {"badOpcode", "badCounts"}   -> {O(TRUE, FALSE, FALSE)}
-    [] kind = "hit"                          -> {O(TRUE, FALSE, FALSE)}
+    [] kind \in {"hit", "failhit"}           -> {O(TRUE, FALSE, FALSE)}
+    [] kind = "trunc"                        -> {O(FALSE, FALSE, FALSE)}   \* never served (dropped by the reader)
     [] kind = "miss"  -> IF pass = "inline" THEN {O(FALSE, TRUE, FALSE)}
                                             ELSE {O(TRUE, FALSE, FALSE)}
     [] kind = "panic"                        -> {O(FALSE, FALSE, TRUE), O(TRUE, FALSE, TRUE)}
@@ -198,6 +209,7 @@ PShed(r) ==
 
 PReadInto(r) ==
   /\ err = "" /\ r \in PReaders /\ rpc[r] = "armed" /\ inbox # <<>>
+  /\ KindOf(Head(inbox)) # "trunc"
   /\ LET j == rheld[r][1] p == Head(inbox) IN
      slab' = [slab EXCEPT ![j] = OpReadPortable(@, p, ClientOf(p))]
   /\ inbox' = Tail(inbox)
@@ -207,6 +219,15 @@ PReadInto(r) ==
 
 PReadDrop(r) ==      \* read error / MSG_TRUNC / control truncation: release(reading)
   /\ err = "" /\ Drops /\ r \in PReaders /\ rpc[r] = "armed" /\ inbox # <<>>
+  /\ inbox' = Tail(inbox)
+  /\ ReleaseTo(rheld[r][1], "reading", slab, {Head(inbox)})
+  /\ rheld' = [rheld EXCEPT ![r] = <<>>]
+  /\ rpc' = [rpc EXCEPT ![r] = "top"]
+  /\ UNCHANGED <<alloc, ready, nsent, rpend, hpc, cur, burst, fl, out, ov, oout, wire>>
+
+PReadTrunc(r) ==     \* flags&msgTrunc: release(reading), whatever Drops says
+  /\ err = "" /\ r \in PReaders /\ rpc[r] = "armed" /\ inbox # <<>>
+  /\ KindOf(Head(inbox)) = "trunc"
   /\ inbox' = Tail(inbox)
   /\ ReleaseTo(rheld[r][1], "reading", slab, {Head(inbox)})
   /\ rheld' = [rheld EXCEPT ![r] = <<>>]
@@ -269,7 +290,9 @@ BRecv(r) ==
        /\ slab' = [j \in Slabs |->
                      IF \E i \in 1..n : rheld[r][i] = j
                        THEN LET i == CHOOSE i \in 1..n : rheld[r][i] = j IN
-                            OpReadBatch(slab[j], inbox[i], ClientOf(inbox[i]))
+                            IF KindOf(inbox[i]) = "trunc"
+                              THEN OpReadTrunc(slab[j], inbox[i])
+                              ELSE OpReadBatch(slab[j], inbox[i], ClientOf(inbox[i]))
                        ELSE slab[j]]
        /\ rpend' = [rpend EXCEPT ![r] = SubSeq(rheld[r], 1, n)]
        /\ rheld' = [rheld EXCEPT ![r] = SubSeq(@, n + 1, Len(@))]
@@ -283,18 +306,25 @@ BFinish(r) ==
   /\ err = "" /\ r \in BReaders /\ rpc[r] = "fin" /\ rpend[r] # <<>>
   /\ LET j == Head(rpend[r]) IN
      /\ rpend' = [rpend EXCEPT ![r] = Tail(@)]
-     /\ inFlight' = inFlight + 1
-     /\ IF Inline
-          THEN /\ IF slab[j].state = "reading"                \* InlineBegin
-                    THEN slab' = [slab EXCEPT ![j] = OpInlineBegin(@, r)] /\ err' = err
-                    ELSE slab' = slab /\ err' = "ownership: inline serve of a slab not reading"
-               /\ cur' = [cur EXCEPT ![r] = j]
-               /\ out' = [out EXCEPT ![r] = NoOut]
-               /\ rpc' = [rpc EXCEPT ![r] = "inl"]
-               /\ UNCHANGED <<ready, ov>>
-          ELSE /\ EnqueueCounted(j, slab)
-               /\ UNCHANGED <<cur, out, rpc, err>>
-  /\ UNCHANGED <<alloc, idle, leased, inbox, nsent, pinfo, rheld, hpc, burst, fl, wire, oout>>
+     /\ IF KindOf(slab[j].rx) = "trunc"
+          THEN \* h.hdr.Flags&MSG_TRUNC: the slot is consumed either way; the slab goes back or is lost
+               /\ IF TruncRelease
+                    THEN ReleaseTo(j, "reading", slab, {})
+                    ELSE UNCHANGED <<slab, idle, leased, inFlight, pinfo, err>>
+               /\ UNCHANGED <<ready, ov, cur, out, rpc>>
+          ELSE /\ inFlight' = inFlight + 1
+               /\ UNCHANGED <<idle, leased, pinfo>>
+               /\ IF Inline
+                    THEN /\ IF slab[j].state = "reading"                \* InlineBegin
+                              THEN slab' = [slab EXCEPT ![j] = OpInlineBegin(@, r)] /\ err' = err
+                              ELSE slab' = slab /\ err' = "ownership: inline serve of a slab not reading"
+                         /\ cur' = [cur EXCEPT ![r] = j]
+                         /\ out' = [out EXCEPT ![r] = NoOut]
+                         /\ rpc' = [rpc EXCEPT ![r] = "inl"]
+                         /\ UNCHANGED <<ready, ov>>
+                    ELSE /\ EnqueueCounted(j, slab)
+                         /\ UNCHANGED <<cur, out, rpc, err>>
+  /\ UNCHANGED <<alloc, inbox, nsent, rheld, hpc, burst, fl, wire, oout>>
 
 (* what one pass over the packet in RX does to its slab: an in-place        *)
 (* rejection never reaches the chain; everything else enters the edns       *)
@@ -304,7 +334,9 @@ Served(s, wrote) ==
   IF KindOf(s.rx) \notin ChainKinds
     THEN (IF wrote THEN OpStage(s) ELSE s)
     ELSE LET e == OpEdnsEnter(s, OptOf(s.rx)) IN
-         OpEdnsLeave(IF wrote THEN OpStageOpt(e, OptOf(s.rx)) ELSE e)
+         OpEdnsLeave(IF ~wrote THEN e
+                     ELSE IF KindOf(s.rx) = "failhit" THEN OpStageInPlace(e, OptOf(s.rx))
+                     ELSE OpStageOpt(e, OptOf(s.rx)))
 
 (* the serve of the job the holder h has in hand: header accept, chain, tail *)
 PassOf(h, j) == IF h \in BReaders THEN "inline"
@@ -413,6 +445,7 @@ Datagram(j, s, how) ==
    tx |-> IF how = "now" THEN s.rx ELSE s.tx,
    ck |-> IF how = "now" THEN ReplyCookie(OpEdnsEnter(s, OptOf(s.rx)), OptOf(s.rx)) ELSE s.txck,
    want |-> IF s.rx # None /\ OptOf(s.rx) = "cookie" THEN s.rx ELSE None,
+   hd |-> IF how = "now" THEN (IF KindOf(s.rx) = "failhit" THEN HdInPlace(s) ELSE s.rx) ELSE s.txhd,
    rx |-> s.rx,
    from |-> IF s.rx = None THEN None ELSE ClientOf(s.rx),
    kind |-> IF s.rx = None THEN "none" ELSE KindOf(s.rx),
@@ -423,7 +456,8 @@ Own(d)    == d.rx # None /\ d.tx = d.rx /\ d.to = d.from
 Earned(d) == d.wrote /\ d.kind \notin SilentKinds
 Once(d)   == d.nth = 1
 OptOwn(d) == d.ck = d.want
-Sound(d)  == Own(d) /\ Earned(d) /\ Once(d) /\ OptOwn(d)
+HdOwn(d)  == d.hd = d.rx
+Sound(d)  == Own(d) /\ Earned(d) /\ Once(d) /\ OptOwn(d) /\ HdOwn(d)
 (* the ghost keeps the datagrams that broke a predicate, so the predicates  *)
 (* below are state invariants without a growing history: each holds at     *)
 (* every send of every behaviour iff it holds of `wire` in every state     *)
@@ -468,7 +502,8 @@ OvChain(j) ==
        /\ oout' = [oout EXCEPT ![j] = o]
        /\ IF o.wrote
             THEN /\ wire' = Record(<<Datagram(j, slab[j], "now")>>)
-                 /\ slab' = [slab EXCEPT ![j] = OpWriteNow(Served(@, FALSE))]
+                 /\ slab' = [slab EXCEPT ![j] = [OpWriteNow(Served(@, FALSE)) EXCEPT
+                                                   !.txhd = IF KindOf(slab[j].rx) = "failhit" THEN HdInPlace(slab[j]) ELSE slab[j].rx]]
             ELSE /\ wire' = wire
                  /\ slab' = [slab EXCEPT ![j] = Served(@, FALSE)]
   /\ UNCHANGED <<alloc, idle, ready, leased, inFlight, inbox, nsent, pinfo, rpc, rheld, rpend,
@@ -492,7 +527,7 @@ Next ==
        /\ (IF k \in ChainKinds THEN o \in Opts ELSE o = "none")
        /\ ClientSend(c, k, o)
   \/ \E r \in PReaders : PTakeAdd(r) \/ PTakeCheck(r) \/ PShed(r) \/ PReadInto(r)
-                         \/ PReadDrop(r) \/ PEnqueue(r)
+                         \/ PReadDrop(r) \/ PReadTrunc(r) \/ PEnqueue(r)
   \/ \E r \in BReaders : BTakeAdd(r) \/ BTakeCheck(r) \/ BArmed(r) \/ BShed(r) \/ BRecv(r)
                          \/ BFinish(r) \/ InlineEnd(r) \/ InlineHandoff(r) \/ BCycleEnd(r)
   \/ \E w \in Workers : WDequeue(w) \/ ServeEnd(w) \/ WFlushStart(w) \/ WMidFlush(w)
@@ -537,6 +572,16 @@ ReplyIsOwn == \A i \in 1..Len(wire) : Own(wire[i])
 (* option appears iff the packet in RX carried a client cookie and is built *)
 (* from that packet's own cookie bytes                                      *)
 ReplyOptIsOwn == \A i \in 1..Len(wire) : OptOwn(wire[i])
+
+(* the flags word of a reply (AD, TC, Z ...) is its own: written for the     *)
+(* packet it answers, not left in the slab's TX buffer by an earlier reply  *)
+ReplyHeaderIsOwn == \A i \in 1..Len(wire) : HdOwn(wire[i])
+
+(* no held slabs: every slab that is out of the idle cache is in somebody's *)
+(* hands -- armed or filled in a reader's ring, queued, being served, in a  *)
+(* burst, on an overflow goroutine -- who will give it back; none is leased *)
+(* to nobody                                                                *)
+NoHeldSlabs == err = "" => \A j \in alloc \ Range(idle) : Places(j) >= 1
 
 (* between requests the job-owned edns writer slot holds nothing of any     *)
 (* request (the hazard ReplyOptIsOwn's failure grows from)                  *)
